@@ -113,24 +113,28 @@ def after_rejected_calls(rng, viol):
     return n
 
 
-def threaded_encoders(rng, viol, per_thread=250, nthreads=8):
+def threaded_encoders(rng, viol, per_thread=400, nthreads=8):
     """the randomised encoders called concurrently by `nthreads` threads (switch interval 1e-6): every block must still
     have the standard's layout and decode to its PIN (shared fill generators, pooled entropy or module-level scratch
     buffers only fail here).  -> number of calls"""
     import sys
     import threading
     jobs = []
-    key = rng.randbytes(16)
+    keys = [rng.randbytes(ks) for ks in (16, 24, 32, 16, 32, 24)]          # different AES keys in flight at the same time
     for _ in range(nthreads * per_thread):
         L = rng.randrange(4, 13)
-        jobs.append((rng.randrange(3), "".join(rng.choice(DIG) for _ in range(L)), "".join(rng.choice(DIG) for _ in range(rng.randrange(13, 20)))))
+        jobs.append((rng.choice((0, 0, 1, 2, 2, 3, 3)), "".join(rng.choice(DIG) for _ in range(L)), "".join(rng.choice(DIG) for _ in range(rng.randrange(13, 20))),
+                     rng.choice(keys)))
     res = [None] * len(jobs)
 
     def runner(t0):
         for j in range(t0, len(jobs), nthreads):
-            kind, pin, pan = jobs[j]
+            kind, pin, pan, key = jobs[j]
             try:
-                if kind == 0:
+                if kind == 3:
+                    b = pinblock.encode_pinblock_iso_0(pin, pan)
+                    res[j] = (b, pinblock.decode_pinblock_iso_0(b, pan))
+                elif kind == 0:
                     b = pinblock.encode_pinblock_iso_3(pin, pan)
                     res[j] = (b, pinblock.decode_pinblock_iso_3(b, pan))
                 elif kind == 1:
@@ -152,10 +156,15 @@ def threaded_encoders(rng, viol, per_thread=250, nthreads=8):
             th.join()
     finally:
         sys.setswitchinterval(old)
-    names = ("encode_pinblock_iso_3", "encode_pin_field_iso_4", "encipher_pinblock_iso_4")
+    names = ("encode_pinblock_iso_3", "encode_pin_field_iso_4", "encipher_pinblock_iso_4", "encode_pinblock_iso_0")
     nv = 0
-    for (kind, pin, pan), r in zip(jobs, res):
+    for (kind, pin, pan, key), r in zip(jobs, res):
         ok = not isinstance(r, Exception) and r is not None and r[1] == pin
+        if ok and kind == 3:
+            ok = r[0] == o.from_nibbles(o.xor_nibbles(o.pin_block_nibbles(0, pin), o.pan_block(pan)))
+        if ok and kind == 2:
+            pf = o.D("aes", key, o.xor(o.D("aes", key, r[0]), o.from_nibbles(o.pan_field4_nibbles(pan))))
+            ok = o.nibbles(pf)[:16] == o.pin_field4_nibbles(pin, b"")[:16]
         if ok and kind == 0:
             nib = unmask(r[0], pan)
             ok = nib[:2 + len(pin)] == [3, len(pin)] + [int(c) for c in pin] and all(x >= 10 for x in nib[2 + len(pin):]) and len(r[0]) == 8
@@ -168,3 +177,63 @@ def threaded_encoders(rng, viol, per_thread=250, nthreads=8):
                              "input": {"fn": names[kind], "args": [pin, pan] if kind != 1 else [pin], "history": "%d threads x %d mixed calls" % (nthreads, per_thread)},
                              "expected": "block with the standard layout that decodes to the PIN", "observed": repr(r)[:200]})
     return len(jobs)
+
+
+def threaded_fixed_pairs(rng, viol, iters=4000, nthreads=8):
+    """tight loops: every thread encodes and decodes format 0 / 3 blocks for ITS OWN (PIN, PAN) pairs, results compared with
+    values computed beforehand (single-threaded, from the standard) - a last-value memo written in two steps, or a shared
+    scratch block, is hit only by many short calls under different PANs at once.  -> number of calls"""
+    import sys
+    import threading
+    pairs = []
+    for _ in range(nthreads):
+        pin = "".join(rng.choice(DIG) for _ in range(rng.randrange(4, 13)))
+        pan = "".join(rng.choice(DIG) for _ in range(rng.randrange(13, 20)))
+        pairs.append((pin, pan, o.from_nibbles(o.xor_nibbles(o.pin_block_nibbles(0, pin), o.pan_block(pan)))))
+    bad = [None] * nthreads
+
+    def runner(ti):
+        pin, pan, exp0 = pairs[ti]
+        for it in range(iters):
+            try:
+                b0 = pinblock.encode_pinblock_iso_0(pin, pan)
+                if b0 != exp0:
+                    bad[ti] = ("encode_pinblock_iso_0", [pin, pan], exp0.hex(), b0.hex())
+                    return
+                p0 = pinblock.decode_pinblock_iso_0(exp0, pan)
+                if p0 != pin:
+                    bad[ti] = ("decode_pinblock_iso_0", [exp0.hex(), pan], pin, p0)
+                    return
+                if it % 4 == 0:
+                    b3 = pinblock.encode_pinblock_iso_3(pin, pan)
+                    p3 = pinblock.decode_pinblock_iso_3(b3, pan)
+                    nib = unmask(b3, pan)
+                    if p3 != pin or nib[:2 + len(pin)] != [3, len(pin)] + [int(c) for c in pin]:
+                        bad[ti] = ("encode/decode_pinblock_iso_3", [pin, pan], pin, repr((b3.hex(), p3)))
+                        return
+            except Exception as e:  # noqa: BLE001
+                bad[ti] = ("format 0 / 3 encode or decode", [pin, pan], "result", repr(e)[:160])
+                return
+
+    old = sys.getswitchinterval()
+    sys.setswitchinterval(1e-6)
+    try:
+        ths = [threading.Thread(target=runner, args=(k,)) for k in range(nthreads)]
+        for th in ths:
+            th.start()
+        for th in ths:
+            th.join()
+    finally:
+        sys.setswitchinterval(old)
+    for b in bad:
+        if b:
+            viol.append({"what": "format 0 / 3 under %d threads, each with its own PAN: wrong result" % nthreads,
+                         "input": {"fn": b[0], "args": b[1], "history": "%d threads x %d iterations, one (PIN, PAN) pair per thread" % (nthreads, iters)},
+                         "expected": b[2], "observed": b[3]})
+    # the state left behind must be sound too: the same pairs again, single-threaded
+    for pin, pan, exp0 in pairs:
+        b0 = call(pinblock.encode_pinblock_iso_0, pin, pan)
+        if b0 != ("OK", exp0):
+            viol.append({"what": "format 0 block wrong AFTER a threaded run (state left behind by a race)", "input": {"fn": "encode_pinblock_iso_0", "args": [pin, pan]},
+                         "expected": exp0.hex(), "observed": repr(b0)})
+    return nthreads * iters * 2
